@@ -112,6 +112,22 @@ def spell(desc):
     return '%s(%s)' % (kind, ', '.join(spell(c) for c in desc[1]))
 
 
+def rebound(twin, how):
+    """What an identity-like expression that rebinds `$` per element / per entry gives back, as a twin:
+    'same' the document, 'single' a sequence holding just the document, 'elements' the members of a collection
+    document as a sequence (in no particular order when the collection is a set), 'values' / 'keys' those of a
+    dict document (entry order is not part of the property)."""
+    if how == 'same':
+        return twin
+    if how == 'single':
+        return Gen([twin])
+    if how == 'elements':
+        if isinstance(twin, Gen):
+            return Gen(list(twin.items), twin.ordered)
+        return Gen(list(twin), ordered=isinstance(twin, tuple))
+    return Gen(list(twin.values() if how == 'values' else twin.keys()), ordered=False)
+
+
 # ---------------------------------------------------------------------------
 # images
 # ---------------------------------------------------------------------------
